@@ -4,7 +4,7 @@ from vlib import std, hbuild, coq, corr, recipes
 
 PID = "C30"
 META = {
-    "text": "Model UriModel.v transcribes AnyP::Uri::parse (CONNECT branch via parseHost/parsePort, urn: branch, the legacy authority/path split with its login, bracket, last-colon and digit-loop port rules, lower-casing, check_hostnames, trailing-dot / '..' / leading-dot rules, port range, uri_whitespace strip/allow/chop/deny), Uri::host() with its 255-byte truncation, authority(), absolute(), absolutePath() and UriScheme (FindProtocolType, image, defaultPort) over tables regenerated from the code (ctype maps, valid_hostname_chars, PathChars, scheme table, per-byte Encode maps, limits). Theorems (Properties_C30.v, 13, closed under the global context) for ALL configurations, methods and byte strings: an accepted URI has a host without upper-case letters and a port in 1..65535; a non-empty, un-truncated, non-IP host has no empty labels; for every RFC-shaped URI scheme://[userinfo@]reg-name:P rest (and scheme://[userinfo@][literal]:P rest) acceptance implies that P is a non-empty decimal string with value in 1..65535 and that this value is the port (so every non-numeric, empty, signed or out-of-range port text is rejected), and without a port the scheme default is used; re-parsing absolute() of a URI value with a settled reg-name / dotted-quad host and a path made of PathChars only yields the same scheme, host, port and path, and the canonical form is then a fixed point. Refuted with witnesses confirmed on the real code (known findings): 'no empty labels' for the empty host and for the host cut at 255 bytes; canonical re-parse for paths with '?' / '#' (F14), for hosts containing ':' that the legacy split accepts, and for the empty host. CONNECT targets, bracketed IPv6 literals in the canonical re-parse, urn: and the host/path halves of 'parse returns exactly the written components' are covered by the correspondence run and the independent oracle only.",
+    "text": "Model UriModel.v transcribes AnyP::Uri::parse (CONNECT branch via parseHost/parsePort, urn: branch, the legacy authority/path split with its login, bracket, last-colon and digit-loop port rules, lower-casing, check_hostnames, trailing-dot removal, the empty / over-long host rejection, '..' / leading-dot rules, port range, uri_whitespace strip/allow/chop/deny), Uri::host(), authority(), absolute(), absolutePath() and UriScheme (FindProtocolType, image, defaultPort) over tables regenerated from the code (ctype maps, valid_hostname_chars, PathChars, scheme table, per-byte Encode maps taken from absolutePath()/absolute() themselves, limits). Theorems (Properties_C30.v, 12, closed under the global context) for ALL configurations, methods and byte strings: an accepted URI has a host without upper-case letters and a port in 1..65535; its host (unless an IP literal or the asterisk-form) is non-empty, fits the host buffer and has no empty labels; for every RFC-shaped URI scheme://[userinfo@]reg-name:P rest (and scheme://[userinfo@][literal]:P rest) acceptance implies that P is a non-empty decimal string with value in 1..65535 and that this value is the port (so every non-numeric, empty, signed or out-of-range port text is rejected), and without a port the scheme default is used; absolutePath() keeps exactly PathChars and '?'; re-parsing absolute() of a URI value with a settled reg-name / dotted-quad host and a path+query made of kept bytes yields the same scheme, host, port and path, and the canonical form is then a fixed point. Refuted with witnesses confirmed on the real code (known findings): canonical re-parse for paths with '#', for hosts containing ':' that the legacy split accepts, and for urn: NIDs that Ip::Address reads as numbers. CONNECT targets, bracketed IPv6 literals in the canonical re-parse, urn: and the host/path halves of 'parse returns exactly the written components' are covered by the correspondence run and the independent oracle only.",
     "note": "Trusted: Coq kernel, extraction, gen/gen_uri.cc, gen/gen_bytemaps.cc, gen/gen_charsets.cc, harness/h_uri.cc, the glue in ml/run_uri.ml. Ip::Address::fromHost/isAnyAddr/toHostStr is a Section variable (ipq) with its contract stated in UriProofs.v (canonical texts are lower-case dotted quads or bracketed [0-9a-f:.]+ and are fixed points of the recognition); the harness supplies the real answers for every string the model asks about and the oracle re-checks the contract on those answers. append_domain and uri_whitespace=encode are not modelled. Function-static sets (schemeChars, nidChars, IPv6chars) are written as expressions over the regenerated base sets and covered by correspondence only. The hand-written model is validated against the code on the generated cases only.",
     "technique": "Coq proof (induction on byte strings, span/split lemmas, vm_compute sweeps over the regenerated 256-entry tables and over all 65536 port values, Section oracle for IP recognition) + extracted-model differential correspondence",
 }
@@ -369,9 +369,12 @@ def oracle(case, out):
                                                        "scheme=%r host=%r port=%s path=%r" % (f2["sch"][1], f2["host"], f2["port"], f2["path"]))
         auth_same = f2 is not None and f2["sch"] == f1["sch"] and f2["host"] == host and f2["port"] == f1["port"]
         if auth_same:
-            enc = norm_path(path).replace(b"?", b"%3F").replace(b"#", b"%23")
-            if (b"?" in path or b"#" in path) and norm_path(f2["path"]) == enc:
-                return ("oracle:reparse:path-query-delimiter-encoded", what + " ('?' / '#' of the path+query are percent-encoded)")
+            enc_f = norm_path(path).replace(b"#", b"%23")
+            enc_q = enc_f.replace(b"?", b"%3F")
+            if b"#" in path and norm_path(f2["path"]) == enc_f:
+                return ("oracle:reparse:path-fragment-delimiter-encoded", what + " ('#' of path+query+fragment is percent-encoded)")
+            if b"?" in path and norm_path(f2["path"]) == enc_q:
+                return ("oracle:reparse:path-query-delimiter-encoded", what + " ('?' of the path+query is percent-encoded)")
             return ("oracle:reparse:path-differs", what)
         if urn:
             if f1["num"] == "1":
